@@ -62,11 +62,24 @@ fn afisafi_universe() -> String {
     all.iter().map(|t| { let (a, s): (u16, u8) = (*t).into(); format!("{}:{}:{}", afisafi_name(*t).unwrap(), a, s) }).collect::<Vec<_>>().join(" ")
 }
 
+/// the variants of routecore's `mrt::Bgp4Mp`
+fn bgp4mp_kind<'a>(m: &routecore::mrt::Bgp4Mp<'a, &'a [u8]>) -> &'static str {
+    use routecore::mrt::Bgp4Mp as B;
+    match m {
+        B::StateChange(_) => "StateChange",
+        B::Message(_) => "Message",
+        B::MessageAs4(_) => "MessageAs4",
+        B::StateChangeAs4(_) => "StateChangeAs4",
+    }
+}
+const BGP4MP_KINDS: [&str; 4] = ["StateChange", "Message", "MessageAs4", "StateChangeAs4"];
+
 fn universe(area: &str) -> Option<String> {
     match area {
         "bmpdispatch" => { let _ = bmp_kind; Some(BMP_KINDS.join(" ")) }
         "ribupdate" => { let _ = update_kind; Some(UPDATE_KINDS.join(" ")) }
         "codecafi" => Some(afisafi_universe()),
+        "mrtdispatch" => { let _ = bgp4mp_kind; Some(BGP4MP_KINDS.join(" ")) }
         _ => None,
     }
 }
@@ -77,7 +90,7 @@ fn main() {
     let mut rec = Recorder::new("a case names one extracted table; nontrivial = the engine knows that table's universe (enum variants pinned by an exhaustive Rust match)");
     let areas: Vec<String> = match &args.replay {
         Some(p) => replay_cases(p).into_iter().filter_map(|c| c.strip_prefix("universe ").map(|s| s.to_string())).collect(),
-        None => ["bmpdispatch", "ribupdate", "codecafi"].iter().map(|s| s.to_string()).collect(),
+        None => ["bmpdispatch", "ribupdate", "codecafi", "mrtdispatch"].iter().map(|s| s.to_string()).collect(),
     };
     for a in areas {
         let u = universe(&a);
